@@ -118,7 +118,27 @@ impl Scenario for CorpusScenario {
             let textless = rng.chance(1, 10); // tokens, but no text: dropped like a token-less one
             for _ in 0..n_tok {
                 let surface = if textless { String::new() } else { gen_surface(rng) };
-                text.push_str(&format!("{}\t{}\n", surface, gen_feature(rng)));
+                let mut feature = gen_feature(rng);
+                if rng.chance(1, 400) {
+                    // a line around the sizes of I/O buffers (8 KiB, 16 KiB, 64 KiB) or well beyond
+                    let target = match rng.below(4) {
+                        0 => 8192 + rng.range(-3, 3),
+                        1 => 16384 + rng.range(-3, 3),
+                        2 => 65536 + rng.range(-3, 3),
+                        _ => rng.range(8000, 40000),
+                    } as usize;
+                    let have = surface.len() + 1 + feature.len();
+                    if target > have {
+                        let pad = if rng.chance(1, 2) { "長" } else { "x" };
+                        while surface.len() + 1 + feature.len() + pad.len() <= target {
+                            feature.push_str(pad);
+                        }
+                        while surface.len() + 1 + feature.len() < target {
+                            feature.push('y');
+                        }
+                    }
+                }
+                text.push_str(&format!("{}\t{}\n", surface, feature));
             }
             text.push_str("EOS\n");
         }
@@ -133,7 +153,12 @@ impl Scenario for CorpusScenario {
         );
         for _ in 0..rng.usize(4) {
             plan.ops.push(
-                Op::new("WriteFault").n(&[rng.range(0, 5), rng.range(0, (1 << 32) - 1), *rng.pick(&[0i64, 1, 2])]),
+                Op::new("WriteFault").n(&[
+                    rng.range(0, 5),
+                    rng.range(0, (1 << 32) - 1),
+                    *rng.pick(&[0i64, 1, 2]),
+                    *rng.pick(&[0i64, 0, 1, 2, 3]),
+                ]),
             );
         }
         if rng.chance(1, 2) {
@@ -186,6 +211,9 @@ impl Scenario for CorpusScenario {
                     if text.lines().any(|l| l == "EOS") && parsed.len() < text.lines().filter(|l| *l == "EOS").count() {
                         ctx.count("probe.tokenless_sentence_dropped");
                     }
+                    if text.lines().any(|l| l.len() >= 8192) {
+                        ctx.count("probe.line_of_8192_bytes_or_more");
+                    }
                     // write each example back through a (benignly faulty) sink
                     let corpus = catch(|| Corpus::from_reader(text.as_bytes()))
                         .map_err(|p| panic_violation("C19.parse", "Corpus::from_reader", &p))?
@@ -194,7 +222,7 @@ impl Scenario for CorpusScenario {
                     for (i, ex) in corpus.iter().enumerate() {
                         let f = op.get_fault("sink");
                         let mut sink = FaultySink::new(&f);
-                        let r = catch(|| ex.write(&mut sink).map_err(|e| e.to_string()));
+                        let r = catch(|| ex.write(crate::io::hand(&mut sink)).map_err(|e| e.to_string()));
                         ctx.fired(&sink.fired);
                         match r {
                             Ok(Ok(())) => written.extend_from_slice(&sink.data),
@@ -238,10 +266,11 @@ impl Scenario for CorpusScenario {
                     let f = Fault {
                         hard_at: Some(k.min(len as u64 - 1)),
                         hard_kind: op.num(2) as u8,
+                        wrap: op.num(3).clamp(0, 3) as u8,
                         ..Default::default()
                     };
                     let mut sink = FaultySink::new(&f);
-                    let r = catch(|| ex.write(&mut sink).map_err(|e| e.to_string()));
+                    let r = catch(|| ex.write(crate::io::hand(&mut sink)).map_err(|e| e.to_string()));
                     ctx.fired(&sink.fired);
                     ctx.observations += 1;
                     match r {
@@ -371,6 +400,7 @@ impl Scenario for CorpusScenario {
             stub: vec!["corpus files and output files (FaultyReader/FaultySink over memory)"],
             probes: vec![
                 "probe.tokenless_sentence_dropped",
+                "probe.line_of_8192_bytes_or_more",
                 "probe.malformed_rejected",
                 "probe.tokenizer_output_parsed",
                 "probe.tokenizer_zero_tokens",
@@ -386,6 +416,7 @@ impl Scenario for CorpusScenario {
         let mut points = 0u64;
         for idx in 0..20u64 {
             let mut rng = Rng::new(crate::rng::run_seed(seed, "C19-enum", idx));
+            crate::hashseam::begin_run(crate::hashseam::plan_key(seed, u64::MAX - idx));
             let n_tok = 1 + rng.usize(5);
             let mut text = String::new();
             for _ in 0..n_tok {
@@ -407,7 +438,7 @@ impl Scenario for CorpusScenario {
                         ..Default::default()
                     };
                     let mut sink = FaultySink::new(&f);
-                    let r = catch(|| ex.write(&mut sink).is_err());
+                    let r = catch(|| ex.write(crate::io::hand(&mut sink)).is_err());
                     points += 1;
                     if !matches!(r, Ok(true)) {
                         let mut plan = Plan::new("C19", seed, u64::MAX - idx);
